@@ -1344,8 +1344,7 @@ func guardedByNilErr(call *ssa.Call, use ssa.Instruction) bool {
 		if bo.Op == token.EQL {
 			nilEdge = 0
 		}
-		s := idom.Succs[nilEdge]
-		if (s == use.Block() || s.Dominates(use.Block())) && !idom.Succs[1-nilEdge].Dominates(use.Block()) {
+		if edgeDominates(idom, nilEdge, use.Block()) {
 			return true
 		}
 	}
